@@ -554,9 +554,9 @@ func (h *c01Hist) compare(tag string) bool {
 						f := strings.Fields(l)[1]
 						pfx := strings.TrimSuffix(f[strings.Index(f, "/")+1:], ":")
 						if phase == "incremental" && h.looped[p.spec.Addr][pfx] {
-							setClass("over-send-max:incremental:after-filtered-version", 1)
+							setClass("over-send-max:incremental:after-filtered-version", 10)
 						} else {
-							setClass("over-send-max:"+phase, 1)
+							setClass("over-send-max:"+phase, 10)
 						}
 					case strings.HasPrefix(l, "NOT-ELIGIBLE"):
 						k := strings.Fields(l)[3] // family/prefix#id
@@ -566,14 +566,19 @@ func (h *c01Hist) compare(tag string) bool {
 							where = "still-in-rib"
 						}
 						if h.looped[p.spec.Addr][pfx] {
-							setClass("stale-path:after-looped-version", 2)
+							setClass("stale-path:after-looped-version", 30)
+						} else if phase != "incremental" {
+							// right after a full re-advertisement the known send-max defect (everything is
+							// sent, the held-back marks stay) also leaves paths whose later withdrawal is
+							// skipped; an OVER finding of the same comparison takes precedence
+							setClass("stale-path:unexplained:"+where+":"+phase, 20)
 						} else {
 							setClass("stale-path:unexplained:"+where+":"+phase, 0)
 						}
 					case strings.HasPrefix(l, "UNDER"):
-						setClass("under-send-max:"+phase, 3)
+						setClass("under-send-max:"+phase, 40)
 					case strings.HasPrefix(l, "DIFFERENT"):
-						setClass("different-attrs:"+phase, 4)
+						setClass("different-attrs:"+phase, 50)
 					}
 				}
 				cs := []string{class}
